@@ -123,6 +123,7 @@ func c09Families(tier fw.Tier) []docFamily {
 		sums := [][]string{
 			nil, {"x"}, {" leading space"}, {"trailing space  "}, {"tab\tinside\t"}, {"8:00 - 9:00 looks like an entry"}, {"-1h"},
 			{"", "        extra indentation"}, {"a", "\tb", "  c  "}, {"#tag=\"q\" #t2='x y' #t3=z", "    2020-01-01 (8h!)"}, {"(", ")"}, {"?"}, {"- ?"},
+			{"replacement \ufffd character", "and \ufffd again"}, {"\ufffd"}, {"x \ufffd"}, {"  "}, {" ", "cont"}, {"\t "}, {"", "  x"}, {"100% %s %d"},
 		}
 		shoulds := []string{"", " (8h!)", " (+8h!)", " (0m!)", " (-0h!)", " (90m!)", " (-1h5m!)", "  (480m!)"}
 		fs = append(fs, docFamily{"notation", len(vals) * len(sums) * len(shoulds) * 4, func(i int) (string, []sm.Record, bool) {
